@@ -59,8 +59,8 @@ def variants(base, items, rng, all_positions):
             d = flat.FlatDesc.from_json(copy.deepcopy(base.to_json()))
             kind = 4 if rng.random() < 0.35 else 3
             nn = rng.randrange(3)
-            if rng.random() < 0.2:      # a builtin exception type (KeyError, IndexError, OSError, LookupError, …)
-                kind, nn = rng.choice([2, 6, 7, 8, 9, 10]), 0
+            if rng.random() < 0.2:      # a builtin exception type (KeyError, IndexError, OSError, StopIteration, …)
+                kind, nn = rng.choice([2, 6, 7, 8, 9, 10, 11, 11, 12]), 0
             d.script[(cid, k)] = ((), ('raise', kind, nn))
             extra = None
             if handlers:
@@ -138,6 +138,13 @@ def judge_case(case):
     r = run_on(d, clsname)
     if r.bad:
         out.append(Failure('monitor', 'arguments', case, {'bad': r.bad[:5]}, signature='C04.args'))
+    for tag, obj in sorted(getattr(r, 'raised_objs', {}).items()):
+        if flat.foreign_other(r, obj):
+            out.append(Failure('monitor', 'exception-replaced-on-the-way-to-the-caller', case,
+                               {'class': clsname, 'call': tag, 'caller_got': '%s: %s' % (type(obj).__name__, str(obj)[:80]),
+                                'scripted': [type(x).__name__ for x in getattr(r, 'scripted', [])]},
+                               signature='C04.identity'))
+            break
     mon = None
     if not d.queued:
         mon = common.batch_driver([monitor_req(d, r)])[0]
@@ -488,7 +495,8 @@ def na_judge(case):
             kind = 4 if rng.random() < 0.35 else 3
             nn = rng.randrange(3)
             if rng.random() < 0.3:      # a builtin exception type (KeyError, IndexError, OSError, LookupError, …)
-                kind, nn = rng.choice([2, 6, 7, 7, 8, 9, 10]), 0
+                # (StopIteration only where callbacks are plain functions: a coroutine turns it into RuntimeError)
+                kind, nn = rng.choice([2, 6, 7, 7, 8, 9, 10] + ([] if setup[3] else [11, 11, 12])), 0
             d.script[(cid, k)] = ((), ('raise', kind, nn))
             handlers = []
             if with_h:
@@ -510,6 +518,11 @@ def na_judge(case):
             fs = [(w, dict(dd, **info)) for w, dd in na_oracle(d, setup, clean_v.items, crash.items, cid, k, handlers)]
             if crash.bad:
                 fs.append(('arguments', dict(info, bad=crash.bad[:3])))
+            if kind >= 6 and not with_h:
+                for tg, obj in sorted(getattr(crash, 'raised_objs', {}).items()):
+                    if tg == it[4] and flat.foreign_other(crash, obj):
+                        fs.append(('exception-replaced-on-the-way-to-the-caller',
+                                   dict(info, caller_got='%s: %s' % (type(obj).__name__, str(obj)[:80]))))
             # survivor vs fresh
             cont = [(flat.TRIGGER, rng.choice(d.models), rng.choice(evs)) for _ in range(3)]
             surv = na_run(na_clone(d, list(d.history) + cont), setup)
